@@ -39,6 +39,7 @@ type Route struct {
 	Rets      []string `json:"rets"`
 	Verb      string   `json:"verb"`
 	VerbStray bool     `json:"verb_stray,omitempty"` // @Method carries an unknown property
+	NoTag     bool     `json:"no_tag,omitempty"`     // the controller has no @Tag (a warning, not a link error)
 	// Sibling adds a second, well-formed method to the controller whose route overlaps this one (a route-conflict
 	// warning on the same controller): warnings must never mask errors
 	Sibling bool `json:"sibling,omitempty"`
@@ -477,6 +478,13 @@ func perturbations(b Route) []pert {
 		}},
 		pert{"ret.add-third", func(r *Route) bool { r.Rets = append([]string{"int"}, r.Rets...); return len(r.Rets) == 3 }},
 	)
+	ps = append(ps, pert{"controller.tag.drop", func(r *Route) bool {
+		if r.NoTag {
+			return false
+		}
+		r.NoTag = true
+		return true
+	}})
 	ps = append(ps, pert{"verb.stray-property", func(r *Route) bool {
 		if r.VerbStray {
 			return false
@@ -542,6 +550,9 @@ func render(id string, r Route) scen.Unit {
 		m.Ret, m.Err = sub(strings.Join(r.Rets[:len(r.Rets)-1], ", ")), sub(r.Rets[len(r.Rets)-1])
 	}
 	ctl := scen.Controller{Name: "C" + id, Pkg: id, Prefix: scen.S(sub(r.Prefix)), Tag: scen.S("T" + id), Methods: []scen.Method{m}}
+	if r.NoTag {
+		ctl.Tag = nil
+	}
 	if r.Sibling {
 		// same verb, same shape, every {param} replaced by a literal: overlaps the route above
 		sibRoute := nameRe.ReplaceAllString(sub(r.Route), "lit")
